@@ -1,4 +1,5 @@
 import PkVerif.Lemmas.EncryptInv
+import PkVerif.Lemmas.EncryptRefine
 /-!
 # A toy instance of the encrypt store's parameters (C11)
 
@@ -81,7 +82,7 @@ def recvAll (P : Params) (s : St) (plain : Bytes) : St :=
 def demo2 : St := recvAll (toyP 1 10) (recvAll (toyP 1 10) {} [1, 2, 3]) [4, 5]
 
 theorem reach_recvAll (P : Params) (s : St) (plain : Bytes) (hs : Reach P goodR goodP s) (h0 : s.recv = none)
-    (hl : plain.length < 4294967296)
+    (hl : plain.length < 4294967296) (hfi : s.failIndex = 0)
     (hb : recvBegin P goodR s (P.digest plain) plain = ((recvBegin P goodR s (P.digest plain) plain).1, none))
     (h1 : (recvBegin P goodR s (P.digest plain) plain).1.recv ≠ none)
     (h2 : (recvStep P goodP (recvBegin P goodR s (P.digest plain) plain).1).recv ≠ none)
@@ -92,17 +93,23 @@ theorem reach_recvAll (P : Params) (s : St) (plain : Bytes) (hs : Reach P goodR 
     Reach P goodR goodP (recvAll P s plain) := by
   have r0 : Reach P goodR goodP (recvBegin P goodR s (P.digest plain) plain).1 :=
     .step s _ hs (.recvBegin s _ plain _ h0 hl hb)
-  have r1 := Reach.step _ _ r0 (.recvStep _ h1)
-  have r2 := Reach.step _ _ r1 (.recvStep _ h2)
-  have r3 := Reach.step _ _ r2 (.recvStep _ h3)
-  have r4 := Reach.step _ _ r3 (.recvStep _ h4)
-  exact Reach.step _ _ r4 (.recvStep _ h5)
+  have g0 : (recvBegin P goodR s (P.digest plain) plain).1.failIndex = 0 := by
+    rw [recvBegin_failIndex]; exact hfi
+  have g1 := recvStep_failIndex (P := P) _ g0
+  have g2 := recvStep_failIndex (P := P) _ g1
+  have g3 := recvStep_failIndex (P := P) _ g2
+  have g4 := recvStep_failIndex (P := P) _ g3
+  have r1 := Reach.step _ _ r0 (.recvStep _ h1 g0)
+  have r2 := Reach.step _ _ r1 (.recvStep _ h2 g1)
+  have r3 := Reach.step _ _ r2 (.recvStep _ h3 g2)
+  have r4 := Reach.step _ _ r3 (.recvStep _ h4 g3)
+  exact Reach.step _ _ r4 (.recvStep _ h5 g4)
 
 theorem demo2_reach : Reach (toyP 1 10) goodR goodP demo2 := by
   unfold demo2
-  refine reach_recvAll _ _ _ (reach_recvAll _ _ _ .init rfl (by decide) (by decide) (by decide) (by decide)
+  refine reach_recvAll _ _ _ (reach_recvAll _ _ _ .init rfl (by decide) rfl (by decide) (by decide) (by decide)
     (by decide) (by decide) (by decide)) (by decide) (by decide) (by decide) (by decide) (by decide) (by decide)
-    (by decide) (by decide)
+    (by decide) (by decide) (by decide)
 
 /-- the plaintext of a data blob that reads like a meta blob: `victim ↦ size/enc` -/
 def lookalike (victim : Bytes) (size : Nat) (enc : Bytes) : Bytes := fmtMeta [(victim, packIndexEntry size enc)]
